@@ -2,47 +2,77 @@ package main
 
 import (
 	"fmt"
+	"go/token"
 	"os"
-	"sort"
-	"strings"
+
+	"golang.org/x/tools/go/ssa"
 )
 
 func init() {
-	register(&Rule{ID: "C00.R0", Props: []string{"C00"}, Title: "debug: state matrix dump", MinInst: 0, Run: func(c *RuleCtx) {
+	register(&Rule{ID: "C00.R0", Props: []string{"C00"}, Title: "debug", MinInst: 0, Run: func(c *RuleCtx) {
 		if os.Getenv("VERIF_DEBUG") == "" {
 			c.Ok("debug", "", "off")
 			return
 		}
-		e, err := c.P.States()
-		if err != nil {
-			panic(err)
-		}
-		hc := c.Fn("Association.handleChunk")
-		var handlers []string
-		for _, ed := range c.P.Callees(hc) {
-			n := c.P.FuncName(ed.To)
-			if strings.HasPrefix(n, "Association.handle") && ed.Kind == "static" {
-				handlers = append(handlers, n)
-			}
-		}
-		sort.Strings(handlers)
-		for _, h := range handlers {
-			fn := c.Fn(h)
-			for i, sn := range e.names {
-				run := e.Run(fn, 1<<uint(i))
-				effs := c.P.EffectsOf(run.Reach)
-				set := map[string]bool{}
-				for _, ef := range effs {
-					set[ef.Label] = true
+		le := c.P.Locks()
+		for _, fn := range c.P.Funcs {
+			forEachInstr(fn, func(in ssa.Instruction) {
+				desc := ""
+				switch x := in.(type) {
+				case *ssa.Select:
+					desc = fmt.Sprintf("select blocking=%v:", x.Blocking)
+					for _, st := range x.States {
+						desc += " " + chanName(st.Chan) + fmt.Sprintf("(%v)", st.Dir)
+					}
+				case *ssa.UnOp:
+					if x.Op == token.ARROW {
+						desc = "recv " + chanName(x.X)
+					}
+				case *ssa.Send:
+					desc = "send " + chanName(x.Chan)
+				case ssa.CallInstruction:
+					if sc := x.Common().StaticCallee(); sc != nil && sc.Pkg != nil && sc.Pkg.Pkg.Path() == "sync" && sc.Name() == "Wait" {
+						desc = "sync Wait " + sc.String()
+					}
+					if b, ok := x.Common().Value.(*ssa.Builtin); ok && b.Name() == "close" {
+						desc = "close " + chanName(x.Common().Args[0])
+					}
+					if x.Common().IsInvoke() && (x.Common().Method.Name() == "Read" || x.Common().Method.Name() == "Write") {
+						desc = "io " + x.Common().Method.Name()
+					}
 				}
-				var ls []string
-				for l := range set {
-					ls = append(ls, l)
+				if desc == "" {
+					return
 				}
-				sort.Strings(ls)
-				fmt.Printf("%-40s %-18s %s\n", h, sn, strings.Join(ls, " "))
-			}
+				held := ""
+				for ctx, ls := range le.HeldAt(in) {
+					held += fmt.Sprintf(" [%s->%s]", le.String(ctx), le.String(ls))
+				}
+				fmt.Printf("%-45s %-14s %s   %s\n", c.P.FuncName(fn), c.Pos(in), desc, held)
+			})
 		}
 		c.Ok("debug", "", "dumped")
 	}})
+}
+
+func chanName(v ssa.Value) string {
+	if f, _ := loadedField(v); f != nil {
+		return f.Name()
+	}
+	switch x := v.(type) {
+	case *ssa.Call:
+		if x.Call.IsInvoke() {
+			return "." + x.Call.Method.Name() + "()"
+		}
+		if sc := x.Call.StaticCallee(); sc != nil {
+			return sc.Name() + "()"
+		}
+	case *ssa.Parameter:
+		return "param:" + x.Name()
+	case *ssa.FreeVar:
+		return "free:" + x.Name()
+	case *ssa.Phi:
+		return "φ"
+	}
+	return v.Name()
 }
